@@ -5,6 +5,8 @@ import sys
 
 def replay(ob):
     rp = ob.get('replay') or {}
+    if rp.get('kind') == 'ops_call':
+        return replay_ops_call(ob, rp)
     if rp.get('kind') not in ('fd', 'transpose'):
         return {'reproduced': False, 'detail': 'no native concretisation for this obligation kind'}
     root = os.environ.get('PYVC_REPO', '/repo')
@@ -56,3 +58,45 @@ def replay(ob):
         except Exception as e:
             return {'reproduced': 'no_raise' in ob.get('name', ''), 'detail': 'n=%d: native call raised %s: %s' % (n, type(e).__name__, e)}
     return {'reproduced': False, 'detail': 'contract holds natively for n in %s' % sizes}
+
+
+def replay_ops_call(ob, rp):
+    """the real operator classes on small 1-d and 2-d spaces: op(x, out=<stale>) against separate calls of the real finite_diff per axis"""
+    root = os.environ.get('PYVC_REPO', '/repo')
+    if root not in sys.path:
+        sys.path.insert(0, root)
+    import numpy as np
+    import odl
+    from odl.discr import diff_ops as D
+    cname, method, pad = rp['class'], rp['method'], rp['pad_mode']
+    rng = np.random.default_rng(2)
+    c = 0.7 if pad == 'constant' else 0
+    for shape in ((3,), (4,), (6,), (3, 4)):
+        if min(shape) < (3 if 'order2' in pad else 2):
+            continue
+        X = odl.uniform_discr([0.0] * len(shape), [1.0 + a for a in range(len(shape))], shape)
+        dx = X.cell_sides
+        try:
+            if cname == 'Laplacian':
+                op = odl.Laplacian(X, pad_mode=pad, pad_const=c)
+                x = X.element(rng.standard_normal(shape))
+                want = sum(D.finite_diff(x.asarray(), axis=a, dx=dx[a] ** 2, method='forward', pad_mode=pad, pad_const=c) -
+                           D.finite_diff(x.asarray(), axis=a, dx=dx[a] ** 2, method='backward', pad_mode=pad, pad_const=c) for a in range(len(shape)))
+            elif cname == 'PartialDerivative':
+                ax = len(shape) - 1
+                op = odl.PartialDerivative(X, ax, method=method, pad_mode=pad, pad_const=c)
+                x = X.element(rng.standard_normal(shape))
+                want = D.finite_diff(x.asarray(), axis=ax, dx=dx[ax], method=method, pad_mode=pad, pad_const=c)
+            else:
+                op = odl.Divergence(range=X, method=method, pad_mode=pad, pad_const=c)
+                x = op.domain.element([rng.standard_normal(shape) for _ in range(len(shape))])
+                want = sum(D.finite_diff(x[a].asarray(), axis=a, dx=dx[a], method=method, pad_mode=pad, pad_const=c) for a in range(len(shape)))
+            out = op.range.element(rng.standard_normal(shape) * 10)
+            got = op(x, out=out)
+            got2 = op(x)
+        except Exception as e:
+            return {'reproduced': 'no_raise' in ob.get('name', ''), 'detail': '%s on shape %r: native call raised %s: %s' % (cname, shape, type(e).__name__, e)}
+        if got is not out or not np.allclose(out.asarray(), want) or not np.allclose(got2.asarray(), want):
+            return {'reproduced': True, 'detail': '%s(%s, %s) on shape %r: in-place %r, out-of-place %r, finite_diff reference %r' % (cname, method, pad, shape, out.asarray(), got2.asarray(), want),
+                    'input': {'shape': list(shape)}}
+    return {'reproduced': False, 'detail': 'operator _call agrees with finite_diff natively'}
